@@ -26,7 +26,17 @@ import (
 type decodeInfo struct {
 	subrs [][]byte
 	seacs []seacInfo
+
+	// numOps counts the charstring bytes/commands processed so far, for all
+	// glyphs of the font together.
+	numOps int
 }
+
+// maxCharstringOps limits the total amount of work spent on decoding the
+// charstrings of one font.  Without such a limit, a tiny font with
+// subroutines which call each other many times can keep the decoder busy
+// for an unbounded time.
+const maxCharstringOps = 1 << 26
 
 type seacInfo struct {
 	name         string
@@ -108,6 +118,10 @@ glyphLoop:
 		for len(code) > 0 {
 			if len(stack) > maxStack {
 				return nil, errStackOverflow
+			}
+			info.numOps++
+			if info.numOps > maxCharstringOps {
+				return nil, invalidSince("charstrings too complex")
 			}
 
 			op := t1op(code[0])
